@@ -165,6 +165,29 @@ Theorem array_diff_float_refines_spec : forall nt a b m, ad_kind nt = ADFloat ->
 Proof. exact ad_float_refines_spec_lemma. Qed.
 Print Assumptions array_diff_float_refines_spec.
 
+(** ** hdiff's object table (hdiff_table.c): dtable_add doubles the table when it is full and initialises only the
+    new entries (regenerated: initial size, "full" test, growth factor, first index re-initialised), so after any
+    number of additions every stored entry still carries the tag diff() dispatches on and its object; the count
+    computed with the tags as they stand in the table is therefore the count of hdiff_m.
+    (With `for (i = 0; ...)` in the growth branch dtable_grow_from becomes 0 and the proof fails.) *)
+Theorem object_table_keeps_entries : forall l,
+  table_tags l = map obj_tag l /\ map snd (dt_objs (dtable_build l)) = l.
+Proof. exact table_keeps_tags_lemma. Qed.
+Print Assumptions object_table_keeps_entries.
+
+Theorem hdiff_with_table_tags : forall f1 f2,
+  hdiff_tab_m f1 f2 = hdiff_m f1 f2 /\ hdiff_tab_exit_m f1 f2 = hdiff_exit_m f1 f2.
+Proof. exact hdiff_tab_lemma. Qed.
+Print Assumptions hdiff_with_table_tags.
+
+(** ** hdp dumpvd (show.c): a Vdata above BUFFER bytes is read in pieces of BUFFER/vsize records; whatever the
+    number of pieces and the length of the last one, every record is printed exactly once, in order, and the loop
+    ends by itself (regenerated: split test, chunk, loop condition, piece size test, bound of the print loop). *)
+Theorem dumpvd_prints_each_record_once : forall nv vsize, 0 <= nv -> 1 <= vsize <= BUFFER ->
+  dumpvd_m nv vsize = Some (zseqn 0 (Z.to_nat nv)).
+Proof. exact dumpvd_records_lemma. Qed.
+Print Assumptions dumpvd_prints_each_record_once.
+
 (** ** hdp: sdsdumpfull's start[]/left[] walk visits the rows in row-major order, terminates exactly after the
     last row (the result is not an artefact of the fuel), and the row-major linearisation is its inverse. *)
 Theorem dump_order_rowmajor : forall dims, Forall (fun d => 0 < d) dims ->
@@ -298,3 +321,12 @@ Proof.
     + exact (fun _ _ _ => I).
   - repeat split; vm_compute; reflexivity.
 Qed.
+
+Example ex_table_growth :
+  let l := map (fun k => mkobj [111; 48 + k] (BSds 24 [1] [k] [])) [0; 1; 2; 3; 4; 5; 6; 7; 8; 9; 10; 11; 12; 13; 14; 15; 16; 17; 18; 19; 20; 21] in
+  dt_size (dtable_build l) = 40 /\ table_tags l = map (fun _ => 720) l.
+Proof. vm_compute. split; reflexivity. Qed.
+
+Example ex_dumpvd_pieces : dumpvd_m 9 400000 = Some [0; 1; 2; 3; 4; 5; 6; 7; 8] /\ dumpvd_chunk 400000 = 2 /\
+  dumpvd_m 3 12 = Some [0; 1; 2].
+Proof. vm_compute. repeat split; reflexivity. Qed.
